@@ -50,20 +50,20 @@ Proof.
       destruct Hrel as (v & n & Hn & ->).
       destruct N as [|m]; [lia|].
       destruct sp; cbn; unfold R; cbn [p_unput p_q p_col p_stop p_prog unput q col stop pc]; repeat split.
-      * cbn [rel]. exists v, m. split; [lia|reflexivity].
-      * cbn [rel]. exists v, n. split; [lia|reflexivity].
+      * cbn [rel]. do 2 eexists. split; [|reflexivity]. lia.
+      * cbn [rel]. do 2 eexists. split; [|reflexivity]. lia.
     + (* CPop: get with timeout *)
       destruct Hrel as (v & n & Hn & ->).
       destruct n as [|n']; [lia|].
       destruct qq as [|r q']; cbn; unfold R; cbn [p_unput p_q p_col p_stop p_prog unput q col stop pc]; repeat split.
-      * cbn [rel]. exists VNone, n'. split; [lia|reflexivity].
-      * cbn [rel]. exists (VItem r), n'. split; [lia|reflexivity].
+      * cbn [rel]. do 2 eexists. split; [|reflexivity]. lia.
+      * cbn [rel]. do 2 eexists. split; [|reflexivity]. lia.
     + (* CDrain: get_nowait until empty *)
       destruct Hrel as (v & m & Hm & ->).
       destruct m as [|m']; [lia|].
       destruct qq as [|r q']; cbn; unfold R; cbn [p_unput p_q p_col p_stop p_prog unput q col stop pc]; repeat split.
-      * cbn [rel]. exists [v]. reflexivity.
-      * cbn [rel]. exists (VItem r), m'. split; [lia|reflexivity].
+      * cbn [rel]. eexists. reflexivity.
+      * cbn [rel]. do 2 eexists. split; [|reflexivity]. lia.
     + (* CDone *)
       destruct Hrel as (ls & ->). cbn. unfold R; cbn [p_unput p_q p_col p_stop p_prog unput q col stop pc]; repeat split.
       cbn [rel]. exists ls. reflexivity.
